@@ -14,6 +14,7 @@ structure St where
   before : Array String := #[]
   after : Array String := #[]
   mode : Nat := 0   -- 0 none, 1 before, 2 after
+  helpers : Array (List String) := #[]
 
 def parseEdit (ws : List String) : Option TSInputEdit :=
   match ws.map natOf with
@@ -24,16 +25,61 @@ def parseEdit (ws : List String) : Option TSInputEdit :=
            new_end_point := { row := ner, column := nec } }
   | _ => none
 
+/-- Stand-alone helpers: the implementation's answer must equal the generated `ts_point_edit` /
+`ts_range_edit` (correspondence), and positions at or after the old end must land on φ, positions up
+to the start stay (judge, with the row/column checked against the new text). -/
+def helperResult (s : St) (e : TSInputEdit) : String × String := Id.run do
+  let mut corr := "ok"
+  let mut judge := "ok"
+  for h in s.helpers do
+    match h with
+    | [k, b, r, c, nb, nr, nc] =>
+      if k == "hn" || k == "hp" then
+        let b := natOf b
+        let p : TSPoint := { row := natOf r, column := natOf c }
+        let res := ts_point_edit p b e
+        if res.2 != natOf nb || res.1.row != natOf nr || res.1.column != natOf nc then
+          corr := s!"DIFF helper {k} at byte {b}: impl ({nb},{nr}:{nc}) generated ({res.2},{res.1.row}:{res.1.column})"
+        -- judge against the text
+        let nbv := natOf nb
+        if b ≥ e.old_end_byte then
+          let expect := e.new_end_byte + (b - e.old_end_byte)
+          let pos := posOf s.text2 expect
+          if nbv != expect || (decide (p = posOf s.text b) && (pos.row != natOf nr || pos.column != natOf nc)) then
+            judge := s!"FAIL helper {k}: position {b} after the change should move to {expect} at {pos.row}:{pos.column}, got {nb} at {nr}:{nc}"
+        else if b ≤ e.start_byte then
+          if nbv != b || p.row != natOf nr || p.column != natOf nc then
+            judge := s!"FAIL helper {k}: position {b} before the change moved to {nb} at {nr}:{nc}"
+    | ["hr", sb, eb, sr, sc, er, ec, nsb, neb, nsr, nsc, ner, nec] =>
+      let r : TSRange := { start_byte := natOf sb, end_byte := natOf eb
+                           start_point := { row := natOf sr, column := natOf sc }
+                           end_point := { row := natOf er, column := natOf ec } }
+      let g := ts_range_edit r e
+      if g.start_byte != natOf nsb || g.end_byte != natOf neb || g.start_point.row != natOf nsr ||
+         g.start_point.column != natOf nsc || g.end_point.row != natOf ner || g.end_point.column != natOf nec then
+        corr := s!"DIFF helper hr on [{sb},{eb}): impl [{nsb},{neb}) generated [{g.start_byte},{g.end_byte})"
+      if natOf sb ≥ e.old_end_byte then
+        let es := e.new_end_byte + (natOf sb - e.old_end_byte)
+        let ee := e.new_end_byte + (natOf eb - e.old_end_byte)
+        if natOf nsb != es || natOf neb != ee then
+          judge := s!"FAIL helper hr: range [{sb},{eb}) after the change should move to [{es},{ee}), got [{nsb},{neb})"
+      else if natOf eb < e.start_byte || (natOf eb == e.start_byte && e.old_end_byte > e.start_byte) then
+        if nsb != sb || neb != eb then
+          judge := s!"FAIL helper hr: range [{sb},{eb}) before the change moved to [{nsb},{neb})"
+    | _ => pure ()
+  return (corr, judge)
+
 def runCase (s : St) : String :=
   match s.edit, parseDump s.before.toList, parseDump s.after.toList with
   | some e, some b, some a =>
     let m := treeEdit b e
+    let (hc, hj) := helperResult s e
     let corr := match diffTree m.root a.root [] with
-      | none => if decide (m.ranges = a.ranges) then "ok" else "DIFF ranges"
+      | none => if decide (m.ranges = a.ranges) then hc else "DIFF ranges"
       | some p => s!"DIFF path={p.reverse}"
     let (st, _) := judgeTree (Edit.ofInput e) s.text s.text2 b.root a.root length_zero length_zero {}
     let j := match st.fail with
-      | none => "ok"
+      | none => hj
       | some msg => s!"FAIL {msg}"
     let wf := if wfbCheck b.root && wfbCheck a.root then "1" else "0"
     let la := if laokCheck b.root then "1" else "0"
@@ -42,7 +88,7 @@ def runCase (s : St) : String :=
     let cm := if consCheck s.text2.toList m.root 0 then "1" else "0"
     let eo := if editOKCheck s.text.toList s.text2.toList (Edit.ofInput e) then "1" else "0"
     let eb := if e.start_byte ≤ e.old_end_byte && e.old_end_byte ≤ tbJ b.root then "1" else "0"
-    s!"{s.id} corr={corr} judge={j} wfb={wf} laok={la} editok={eb} consb={cb} consa={ca} consm={cm} editok2={eo} nodes={st.nodes} kept={st.kept} shifted={st.shifted} touched={st.touched}"
+    s!"{s.id} corr={corr} judge={j} wfb={wf} laok={la} editok={eb} consb={cb} consa={ca} consm={cm} editok2={eo} helpers={s.helpers.size} nodes={st.nodes} kept={st.kept} shifted={st.shifted} touched={st.touched}"
   | _, _, _ => s!"{s.id} corr=BADINPUT judge=BADINPUT"
 
 def step (s : St) (line : String) : IO St := do
@@ -52,6 +98,9 @@ def step (s : St) (line : String) : IO St := do
     if line == "end" then return { s with mode := 0 } else return { s with after := s.after.push line }
   match line.splitOn " " with
   | ["case", id] => return { id := id }
+  | "hn" :: rest => return { s with helpers := s.helpers.push ("hn" :: rest) }
+  | "hp" :: rest => return { s with helpers := s.helpers.push ("hp" :: rest) }
+  | "hr" :: rest => return { s with helpers := s.helpers.push ("hr" :: rest) }
   | ["text", h] => return { s with text := (unhexBytes h).toArray }
   | ["text"] => return { s with text := #[] }
   | ["text2", h] => return { s with text2 := (unhexBytes h).toArray }
